@@ -20,25 +20,21 @@ theorem g_append_left (a b : List Nat) (i : Nat) (h : i < a.length) : g (a ++ b)
 theorem g_append_right (a b : List Nat) (i : Nat) (h : a.length ≤ i) : g (a ++ b) i = g b (i - a.length) := by
   unfold g; simp [List.getD_eq_getElem?_getD, List.getElem?_append_right h]
 
-/-- **the slave's header parser accepts every variable-length frame the master's encoder produces for it**, and
-reads back function code, FCB, FCV and the position and length of the user data -/
-theorem secHeader_varFrame (l : LL) (fc : Nat) (fcb fcv : Bool) (d f rest : List Nat) (hfc : fc < 16)
-    (ha : AddrOk l.p.addrLen l.address)
-    (hv : varFrame l.p.addrLen (ctrl fc true false fcb fcv) l.address d = some f) (hb : l.buf = f ++ rest) :
-    secHeader l f.length = .ok fc false fcb fcv (5 + l.p.addrLen) d.length := by
-  obtain ⟨c, hc⟩ : ∃ c, c = ctrl fc true false fcb fcv := ⟨_, rfl⟩
-  rw [← hc] at hv
-  obtain ⟨cd1, cd2, cd3, cd4⟩ := ctrl_decode fc fcb fcv hfc
-  rw [← hc] at cd1 cd2 cd3 cd4
+/-- what the header fields computed by the parsers are on a buffer that starts with an encoded variable-length
+frame for address `a` -/
+theorem varFrame_buf (l : LL) (c a : Nat) (d f rest : List Nat) (ha : AddrOk l.p.addrLen a)
+    (hv : varFrame l.p.addrLen c a d = some f) (hb : l.buf = f ++ rest) :
+    isVar l ∧ g l.buf 1 = g l.buf 2 ∧ sizeOk l f.length ∧ checksumOk l ∧ hCtrl l = c ∧ frameAddress l = a ∧
+    (isBroadcast l → False) ∧ hUdLen l = (d.length : Int) ∧ g l.buf 0 ≠ 0xe5 := by
   have hA : l.p.addrLen ≤ 2 := l.p.hA
-  have hlen : (addrBytes l.p.addrLen l.address).length = l.p.addrLen := addrBytes_length _ _ hA
+  have hlen : (addrBytes l.p.addrLen a).length = l.p.addrLen := addrBytes_length _ _ hA
   unfold varFrame at hv
   simp only at hv
   split at hv
   · cases hv
   · rename_i hl
     injection hv with hv
-    obtain ⟨body, hbody⟩ : ∃ body, body = c :: addrBytes l.p.addrLen l.address ++ d := ⟨_, rfl⟩
+    obtain ⟨body, hbody⟩ : ∃ body, body = c :: addrBytes l.p.addrLen a ++ d := ⟨_, rfl⟩
     obtain ⟨L, hL⟩ : ∃ L, L = 1 + l.p.addrLen + d.length := ⟨_, rfl⟩
     rw [← hbody, ← hL] at hv
     have hbl : body.length = L := by rw [hbody, hL]; simp [hlen]; omega
@@ -64,51 +60,55 @@ theorem secHeader_varFrame (l : LL) (fc : Nat) (fcb fcv : Bool) (d f rest : List
         simp [g]
       · rfl
     have hctrl : hCtrl l = c := by unfold hCtrl; rw [if_pos hvar, G4]
-    have haddr : frameAddress l = l.address ∧ ¬ isBroadcast l := by
+    have haddr : frameAddress l = a ∧ ¬ isBroadcast l := by
       unfold isBroadcast frameAddress hCsStart
       rw [if_pos hvar]
       rcases ha with ⟨h0, ha0⟩ | ⟨h1, ha1⟩ | ⟨h2, ha2⟩
       · simp [h0, ha0]
-      · have hab : addrBytes l.p.addrLen l.address = [l.address % 256] := by rw [h1]; simp [addrBytes]
-        have G5 : g l.buf 5 = l.address % 256 := by
+      · have hab : addrBytes l.p.addrLen a = [a % 256] := by rw [h1]; simp [addrBytes]
+        have G5 : g l.buf 5 = a % 256 := by
           rw [hbuf, g_append_right _ _ 5 (by simp), hbody, hab]; rfl
         simp only [h1, G5]
-        have : l.address % 256 = l.address := by omega
+        have : a % 256 = a := by omega
         simp [this]; omega
-      · have hab : addrBytes l.p.addrLen l.address = [l.address % 256, l.address / 256 % 256] := by rw [h2]; simp [addrBytes]
-        have G5 : g l.buf 5 = l.address % 256 := by
+      · have hab : addrBytes l.p.addrLen a = [a % 256, a / 256 % 256] := by rw [h2]; simp [addrBytes]
+        have G5 : g l.buf 5 = a % 256 := by
           rw [hbuf, g_append_right _ _ 5 (by simp), hbody, hab]; rfl
-        have G6 : g l.buf 6 = l.address / 256 % 256 := by
+        have G6 : g l.buf 6 = a / 256 % 256 := by
           rw [hbuf, g_append_right _ _ 6 (by simp), hbody, hab]; rfl
         simp only [h2, G5, G6]
-        have : l.address % 256 + l.address / 256 % 256 * 256 = l.address := by omega
+        have : a % 256 + a / 256 % 256 * 256 = a := by omega
         simp [this]; omega
-    unfold secHeader
-    have n1 : ¬ (isVar l ∧ g l.buf 1 ≠ g l.buf 2) := by rw [G1, G2]; simp
-    have n2 : ¬ (isVar l ∧ ¬ sizeOk l f.length) := by simp [hsz]
-    have n3 : ¬ (¬ isVar l ∧ ¬ isFixed l) := by simp [hvar]
-    have n4 : ¬ (isBroadcast l ∧ hCtrl l % 16 ≠ 4) := by simp [haddr.2]
-    have n5 : ¬ (¬ isBroadcast l ∧ frameAddress l ≠ l.address) := by simp [haddr.1]
-    have n6 : ¬ (hCtrl l / 64 % 2 = 0) := by rw [hctrl, cd2]; decide
-    rw [if_neg n1, if_neg n2, if_neg n3, if_neg n4, if_neg n5, if_neg (by simpa using hcs), if_neg n6]
-    rw [hctrl, cd1, if_pos hvar, if_pos hvar]
-    have e3 : hUdStart l = 5 + l.p.addrLen := rfl
     have e4 : hUdLen l = (d.length : Int) := by unfold hUdLen; rw [G1, hL]; omega
-    rw [e3, e4]
-    have b1 : decide (isBroadcast l) = false := by simpa using haddr.2
-    have b2 : decide (c / 32 % 2 = 1) = fcb := by
-      cases fcb
-      · have : ¬ (c / 32 % 2 = 1) := by rw [cd3]; simp
-        simp [this]
-      · have : c / 32 % 2 = 1 := cd3.mpr rfl
-        simp [this]
-    have b3 : decide (c / 16 % 2 = 1) = fcv := by
-      cases fcv
-      · have : ¬ (c / 16 % 2 = 1) := by rw [cd4]; simp
-        simp [this]
-      · have : c / 16 % 2 = 1 := cd4.mpr rfl
-        simp [this]
-    rw [b1, b2, b3]
+    exact ⟨hvar, by rw [G1, G2], hsz, hcs, hctrl, haddr.1, haddr.2, e4, by rw [G0]; decide⟩
+
+theorem decide_bit (c : Nat) (k : Nat) (b : Bool) (h : c / k % 2 = 1 ↔ b = true) : decide (c / k % 2 = 1) = b := by
+  cases b
+  · have : ¬ (c / k % 2 = 1) := by rw [h]; simp
+    simp [this]
+  · have : c / k % 2 = 1 := h.mpr rfl
+    simp [this]
+
+/-- **the slave's header parser accepts every variable-length frame the master's encoder produces for it**, and
+reads back function code, FCB, FCV and the position and length of the user data -/
+theorem secHeader_varFrame (l : LL) (fc : Nat) (fcb fcv : Bool) (d f rest : List Nat) (hfc : fc < 16)
+    (ha : AddrOk l.p.addrLen l.address)
+    (hv : varFrame l.p.addrLen (ctrl fc true false fcb fcv) l.address d = some f) (hb : l.buf = f ++ rest) :
+    secHeader l f.length = .ok fc false fcb fcv (5 + l.p.addrLen) d.length := by
+  obtain ⟨cd1, cd2, cd3, cd4⟩ := ctrl_decode fc fcb fcv hfc
+  obtain ⟨hvar, hg, hsz, hcs, hctrl, hadr, hnb, hul, _⟩ := varFrame_buf l _ l.address d f rest ha hv hb
+  unfold secHeader
+  have n1 : ¬ (isVar l ∧ g l.buf 1 ≠ g l.buf 2) := by simp [hg]
+  have n2 : ¬ (isVar l ∧ ¬ sizeOk l f.length) := by simp [hsz]
+  have n3 : ¬ (¬ isVar l ∧ ¬ isFixed l) := by simp [hvar]
+  have n4 : ¬ (isBroadcast l ∧ hCtrl l % 16 ≠ 4) := fun h => hnb h.1
+  have n5 : ¬ (¬ isBroadcast l ∧ frameAddress l ≠ l.address) := by simp [hadr]
+  have n6 : ¬ (hCtrl l / 64 % 2 = 0) := by rw [hctrl, cd2]; decide
+  rw [if_neg n1, if_neg n2, if_neg n3, if_neg n4, if_neg n5, if_neg (by simpa using hcs), if_neg n6]
+  rw [hctrl, cd1, if_pos hvar, if_pos hvar, hul]
+  have b1 : decide (isBroadcast l) = false := by simpa using hnb
+  rw [b1, decide_bit _ 32 fcb cd3, decide_bit _ 16 fcv cd4]
+  rfl
 
 /-- feeding the octets of an encoded variable-length frame to the transceiver (any previous buffer content)
 delimits exactly that frame, leaves nothing in the port, and the user data read back is the data encoded -/
@@ -139,5 +139,129 @@ theorem readNext_varFrame (aL c a : Nat) (d f buf : List Nat) (hA : aL ≤ 2)
           ([0x68, 1 + aL + d.length, 1 + aL + d.length, 0x68, c] ++ addrBytes aL a) ++ (d ++ ([sum8 (c :: addrBytes aL a ++ d), 0x16] ++ T)) := by simp
       rw [e, List.drop_left' (by simp [hlen]; omega)]
       simp
+
+/-! ### fixed-length frames -/
+
+theorem fixedFrame_length (aL c a : Nat) (hA : aL ≤ 2) : (fixedFrame aL c a).length = 4 + aL := by
+  simp [fixedFrame, addrBytes_length aL a hA]; omega
+
+theorem readNext_fixedFrame (aL c a : Nat) (buf : List Nat) (hA : aL ≤ 2) :
+    readNext aL (fixedFrame aL c a) buf =
+      ([], fixedFrame aL c a ++ buf.drop (4 + aL), some (4 + aL)) := by
+  have hlen := addrBytes_length aL a hA
+  unfold fixedFrame
+  simp only [List.cons_append, List.nil_append, readNext]
+  have hrl : (c :: (addrBytes aL a ++ [sum8 (c :: addrBytes aL a), 0x16])).length = 3 + aL := by simp [hlen]; omega
+  have ht : List.take (3 + aL) (c :: (addrBytes aL a ++ [sum8 (c :: addrBytes aL a), 0x16])) = c :: (addrBytes aL a ++ [sum8 (c :: addrBytes aL a), 0x16]) :=
+    List.take_of_length_le (by omega)
+  have hd : List.drop (3 + aL) (c :: (addrBytes aL a ++ [sum8 (c :: addrBytes aL a), 0x16])) = [] :=
+    List.drop_of_length_le (by omega)
+  rw [ht, hd, if_pos hrl]
+  unfold writeAt
+  simp only [List.take_zero, List.nil_append, List.length_cons, List.length_nil, Nat.zero_add, List.cons_append]
+  have hrl' : (addrBytes aL a ++ [sum8 (c :: addrBytes aL a), 0x16]).length + 1 = 3 + aL := by simpa using hrl
+  rw [hrl']
+  have e1 : List.drop (1 + (3 + aL)) (0x10 :: List.drop 1 buf) = List.drop (4 + aL) buf := by
+    rw [show 1 + (3 + aL) = (3 + aL) + 1 by omega, List.drop_succ_cons, List.drop_drop]
+    congr 1; omega
+  rw [e1]
+  simp
+  omega
+
+theorem fixedFrame_buf (l : LL) (c a : Nat) (rest : List Nat) (ha : AddrOk l.p.addrLen a)
+    (hb : l.buf = fixedFrame l.p.addrLen c a ++ rest) :
+    ¬ isVar l ∧ isFixed l ∧ checksumOk l ∧ hCtrl l = c ∧ frameAddress l = a ∧ (isBroadcast l → False) ∧ g l.buf 0 ≠ 0xe5 := by
+  have hA : l.p.addrLen ≤ 2 := l.p.hA
+  have hlen : (addrBytes l.p.addrLen a).length = l.p.addrLen := addrBytes_length _ _ hA
+  obtain ⟨body, hbody⟩ : ∃ body, body = c :: addrBytes l.p.addrLen a := ⟨_, rfl⟩
+  have hbl : body.length = 1 + l.p.addrLen := by rw [hbody]; simp [hlen]; omega
+  have hbuf : l.buf = [0x10] ++ (body ++ ([sum8 body, 0x16] ++ rest)) := by
+    rw [hb, hbody]; simp [fixedFrame]
+  have G0 : g l.buf 0 = 0x10 := by rw [hbuf]; rfl
+  have G1 : g l.buf 1 = c := by rw [hbuf, g_append_right _ _ 1 (by simp), hbody]; rfl
+  have hnv : ¬ isVar l := by unfold isVar; rw [G0]; decide
+  have hfx : isFixed l := G0
+  have hcs : checksumOk l := by
+    unfold checksumOk hCsStart hCsIndex
+    rw [if_neg hnv, if_neg hnv]
+    have e1 : ((2 : Int) + (l.p.addrLen : Int)) - ((1 : Nat) : Int) = ((1 + l.p.addrLen : Nat) : Int) := by omega
+    have e2 : ((2 : Int) + (l.p.addrLen : Int)) = ((2 + l.p.addrLen : Nat) : Int) := by omega
+    rw [e1, e2, Int.toNat_natCast, Int.toNat_natCast, hbuf]
+    rw [List.drop_left' (by simp), ← hbl, List.take_left']
+    · rw [g_append_right _ _ _ (by simp; omega), g_append_right _ _ _ (by simp; omega)]
+      have : 2 + l.p.addrLen - [0x10].length - body.length = 0 := by simp [hbl]
+      rw [this]; rfl
+    · rfl
+  have hctrl : hCtrl l = c := by unfold hCtrl; rw [if_neg hnv, G1]
+  have haddr : frameAddress l = a ∧ ¬ isBroadcast l := by
+    unfold isBroadcast frameAddress hCsStart
+    rw [if_neg hnv]
+    rcases ha with ⟨h0, ha0⟩ | ⟨h1, ha1⟩ | ⟨h2, ha2⟩
+    · simp [h0, ha0]
+    · have hab : addrBytes l.p.addrLen a = [a % 256] := by rw [h1]; simp [addrBytes]
+      have G2 : g l.buf 2 = a % 256 := by
+        rw [hbuf, g_append_right _ _ 2 (by simp), hbody, hab]; rfl
+      simp only [h1, G2]
+      have : a % 256 = a := by omega
+      simp [this]; omega
+    · have hab : addrBytes l.p.addrLen a = [a % 256, a / 256 % 256] := by rw [h2]; simp [addrBytes]
+      have G2 : g l.buf 2 = a % 256 := by
+        rw [hbuf, g_append_right _ _ 2 (by simp), hbody, hab]; rfl
+      have G3 : g l.buf 3 = a / 256 % 256 := by
+        rw [hbuf, g_append_right _ _ 3 (by simp), hbody, hab]; rfl
+      simp only [h2, G2, G3]
+      have : a % 256 + a / 256 % 256 * 256 = a := by omega
+      simp [this]; omega
+  exact ⟨hnv, hfx, hcs, hctrl, haddr.1, haddr.2, by rw [G0]; decide⟩
+
+/-- **the slave's header parser accepts every fixed-length frame the master's encoder produces for it** -/
+theorem secHeader_fixedFrame (l : LL) (fc : Nat) (fcb fcv : Bool) (rest : List Nat) (hfc : fc < 16)
+    (ha : AddrOk l.p.addrLen l.address)
+    (hb : l.buf = fixedFrame l.p.addrLen (ctrl fc true false fcb fcv) l.address ++ rest) (n : Nat) :
+    secHeader l n = .ok fc false fcb fcv 0 0 := by
+  obtain ⟨cd1, cd2, cd3, cd4⟩ := ctrl_decode fc fcb fcv hfc
+  obtain ⟨hnv, hfx, hcs, hctrl, hadr, hnb, _⟩ := fixedFrame_buf l _ l.address rest ha hb
+  unfold secHeader
+  have n1 : ¬ (isVar l ∧ g l.buf 1 ≠ g l.buf 2) := by simp [hnv]
+  have n2 : ¬ (isVar l ∧ ¬ sizeOk l n) := by simp [hnv]
+  have n3 : ¬ (¬ isVar l ∧ ¬ isFixed l) := by simp [hfx]
+  have n4 : ¬ (isBroadcast l ∧ hCtrl l % 16 ≠ 4) := fun h => hnb h.1
+  have n5 : ¬ (¬ isBroadcast l ∧ frameAddress l ≠ l.address) := by simp [hadr]
+  have n6 : ¬ (hCtrl l / 64 % 2 = 0) := by rw [hctrl, cd2]; decide
+  rw [if_neg n1, if_neg n2, if_neg n3, if_neg n4, if_neg n5, if_neg (by simpa using hcs), if_neg n6]
+  rw [hctrl, cd1, if_neg hnv, if_neg hnv]
+  have b1 : decide (isBroadcast l) = false := by simpa using hnb
+  rw [b1, decide_bit _ 32 fcb cd3, decide_bit _ 16 fcv cd4]
+
+/-! ### the master's parser on the slave's frames -/
+
+theorem ctrl_decode_sec (fc : Nat) (acd dfc : Bool) (hfc : fc < 16) :
+    ctrl fc false false acd dfc % 16 = fc ∧ ctrl fc false false acd dfc / 64 % 2 = 0 ∧
+    (ctrl fc false false acd dfc / 32 % 2 = 1 ↔ acd = true) ∧ (ctrl fc false false acd dfc / 16 % 2 = 1 ↔ dfc = true) := by
+  unfold ctrl b2n
+  cases acd <;> cases dfc <;> simp <;> omega
+
+/-- **the master's parser accepts every variable-length frame the slave's encoder produces** and reads back the
+control octet, the address and the user data position and length -/
+theorem parseBP_varFrame (l : LL) (c a : Nat) (d f rest : List Nat) (ha : AddrOk l.p.addrLen a)
+    (hv : varFrame l.p.addrLen c a d = some f) (hb : l.buf = f ++ rest) :
+    parseBP l f.length = some ⟨false, c, a, 5 + l.p.addrLen, d.length⟩ := by
+  obtain ⟨hvar, hg, hsz, hcs, hctrl, hadr, _, hul, h5⟩ := varFrame_buf l c a d f rest ha hv hb
+  unfold parseBP
+  have n1 : ¬ (isVar l ∧ g l.buf 1 ≠ g l.buf 2) := by simp [hg]
+  have n2 : ¬ (isVar l ∧ ¬ sizeOk l f.length) := by simp [hsz]
+  have n3 : ¬ (¬ isVar l ∧ ¬ isFixed l) := by simp [hvar]
+  rw [if_neg h5, if_neg n1, if_neg n2, if_neg n3, if_neg (by simpa using hcs), hctrl, hadr, if_pos hvar, if_pos hvar, hul]
+  rfl
+
+theorem parseBP_fixedFrame (l : LL) (c a : Nat) (rest : List Nat) (ha : AddrOk l.p.addrLen a)
+    (hb : l.buf = fixedFrame l.p.addrLen c a ++ rest) (n : Nat) :
+    parseBP l n = some ⟨false, c, a, 0, 0⟩ := by
+  obtain ⟨hnv, hfx, hcs, hctrl, hadr, _, h5⟩ := fixedFrame_buf l c a rest ha hb
+  unfold parseBP
+  have n1 : ¬ (isVar l ∧ g l.buf 1 ≠ g l.buf 2) := by simp [hnv]
+  have n2 : ¬ (isVar l ∧ ¬ sizeOk l n) := by simp [hnv]
+  have n3 : ¬ (¬ isVar l ∧ ¬ isFixed l) := by simp [hfx]
+  rw [if_neg h5, if_neg n1, if_neg n2, if_neg n3, if_neg (by simpa using hcs), hctrl, hadr, if_neg hnv, if_neg hnv]
 
 end Iec.Link101
